@@ -254,9 +254,5 @@ def run(report: Report, tier: str, only: Optional[str] = None) -> None:
     order = {'three': 0, 'two': 1, 'tramp': 2, 'first': 3}
     cfgs.sort(key=lambda c: (order[c[2]], c[1] != 'featured'))
     common.run_pool(py_config, cfgs, report)
-    try:
-        from fjv.llsx import c01_native
-    except ImportError:
-        report.outside.append('native engine: llsx harness not built yet')
-        return
-    c01_native.run(report, tier, only)
+    from fjv.llsx import c01_native
+    c01_native.run(report, tier, only, prop='C01')
